@@ -121,6 +121,20 @@ func (h *bufHandler) ServeHTTP(w http.ResponseWriter, req *http.Request) {
 		w.Write(bytes.Repeat([]byte{byte('a' + h.k%26)}, n))
 	}
 	h.seen[len(h.seen)-1].afterFiles = len(tmpFiles())
+	if boolOr(sc, "panic", false) { // the handler aborts after having written (what a reverse proxy does when its backend breaks off)
+		panic(http.ErrAbortHandler)
+	}
+}
+
+// scriptPanics: does the script of attempt k (the last script repeats) abort the handler?
+func scriptPanics(scripts []M, k int) bool {
+	if k == 0 || len(scripts) == 0 {
+		return false
+	}
+	if k > len(scripts) {
+		k = len(scripts)
+	}
+	return boolOr(scripts[k-1], "panic", false)
 }
 
 func tmpFiles() []string {
@@ -262,7 +276,7 @@ func runBuffer(sc Scenario, tr *Trace, seed int64) {
 		}
 		tr.Emit(M{"e": "Exch", "req": M{"method": method, "framing": framing, "size": size}, "scripts": scr, "seen": seen,
 			"inv": h.k, "status": status, "from": from, "foreign": foreign, "body": nbody, "bodyok": bodyok, "hbytes": hbytes,
-			"files": len(files), "panicked": panicked})
+			"files": len(files), "panicked": panicked, "scriptpanic": scriptPanics(scripts, h.k)})
 	}
 }
 
